@@ -245,7 +245,9 @@ def factor_expr(node, env):
 def product_order_rule(chk, src):
     """Op / OpSum / plain list products keep the left operand on the left: (sum_l L_l)(sum_r R_r) = sum_{l,r} L_l R_r as ordered words"""
     from ..syminterp import SymInterp, Sym
-    f = {q: src.func(OP, q) for q in ("Op.__mul__", "Op.__rmul__", "OpSum.__mul__", "OpSum.__rmul__")}
+    f = {q: src.func(OP, q) for q in ("Op.__mul__", "Op.__rmul__", "OpSum.__mul__", "OpSum.__rmul__", "Op.__add__", "Op.__radd__", "Op.__neg__", "Op.__sub__",
+                                      "OpSum.__add__", "OpSum.__iadd__", "OpSum.__neg__", "OpSum.__sub__", "OpSum.__truediv__")}
+    cur_self = []
     it = SymInterp(src, None, {})
     it.max_depth = 30
 
@@ -266,6 +268,18 @@ def product_order_rule(chk, src):
         def __rmul__(self, o):
             return it.call_function(f["Op.__rmul__"], [self, o])
 
+        def __add__(self, o):
+            return it.call_function(f["Op.__add__"], [self, o])
+
+        def __radd__(self, o):
+            return it.call_function(f["Op.__radd__"], [self, o])
+
+        def __neg__(self):
+            return it.call_function(f["Op.__neg__"], [self])
+
+        def __sub__(self, o):
+            return it.call_function(f["Op.__sub__"], [self, o])
+
     class Fac:
         def __init__(self, names):
             self.names = tuple(sorted(names))
@@ -275,6 +289,9 @@ def product_order_rule(chk, src):
 
         __rmul__ = __mul__
 
+        def __neg__(self):
+            return Fac(self.names + ("-1",))
+
     class Scal:
         def __init__(self, name):
             self.name = name
@@ -282,15 +299,59 @@ def product_order_rule(chk, src):
         def __repr__(self):
             return self.name
 
+        def __rtruediv__(self, o):
+            return Scal(f"{o}/{self.name}")
+
     class Sum(list):
+        def _call(self, q, *a):
+            cur_self.append(self)
+            try:
+                return it.call_function(f[q], [self] + list(a))
+            finally:
+                cur_self.pop()
+
         def __mul__(self, o):
-            return it.call_function(f["OpSum.__mul__"], [self, o])
+            return self._call("OpSum.__mul__", o)
 
         def __rmul__(self, o):
-            return it.call_function(f["OpSum.__rmul__"], [self, o])
+            return self._call("OpSum.__rmul__", o)
+
+        def __add__(self, o):
+            return self._call("OpSum.__add__", o)
+
+        def __iadd__(self, o):
+            return self._call("OpSum.__iadd__", o)
+
+        def __neg__(self):
+            return self._call("OpSum.__neg__")
+
+        def __sub__(self, o):
+            return self._call("OpSum.__sub__", o)
+
+        def __truediv__(self, o):
+            return self._call("OpSum.__truediv__", o)
+
+    class ListSuper(Sym):
+        """super() of the list subclass: plain list behaviour on the current receiver"""
+        def __init__(self):
+            super().__init__("super")
+
+        def __add__(self, o):
+            return list.__add__(cur_self[-1], list(o))
+
+        def __iadd__(self, o):
+            list.extend(cur_self[-1], list(o))
+            return cur_self[-1]
+
+        def __mul__(self, o):
+            raise AnalysisError("list repetition branch reached")
+
+        __rmul__ = __mul__
 
     def isinst(x, t):
         ts = t if isinstance(t, tuple) else (t,)
+        if x == 0 and isinstance(x, int) and any(tt in (int, float) for tt in ts):
+            return True
         for tt in ts:
             if tt == "Op" and isinstance(x, Word):
                 return True
@@ -304,9 +365,8 @@ def product_order_rule(chk, src):
         return Word(symbol[1], factor.names if isinstance(factor, Fac) else ())
 
     opcls = Sym("Op", product=lambda ops: Word(tuple(l for o in ops for l in o.letters), tuple(x for o in ops for x in o.fac)))
-    it.builtins.update({"isinstance": isinst, "Op": "Op", "OpSum": lambda x=(): Sum(x), "np": Sym("np", generic="np.generic"), "TypeError": lambda *a: Exception("TypeError"),
-                        "super": lambda: Sym("super", __mul__=lambda o: (_ for _ in ()).throw(AnalysisError("list repetition branch reached")),
-                                             __rmul__=lambda o: (_ for _ in ()).throw(AnalysisError("list repetition branch reached")))})
+    it.builtins.update({"isinstance": isinst, "Op": "Op", "OpSum": lambda x=(): Sum(x), "np": Sym("np", generic="np.generic", ndarray="np.ndarray", array_equal=lambda a_, b_: False, array=lambda x: x), "TypeError": lambda *a: Exception("TypeError"),
+                        "super": lambda: ListSuper()})
     # `Op` is used both as a class in isinstance and as a constructor / namespace: a callable symbol that compares equal to the tag
     class OpTag(Sym):
         def __call__(self, *a, **k):
@@ -339,7 +399,20 @@ def product_order_rule(chk, src):
              ("scalar * Op", lambda: it.call_function(f["Op.__rmul__"], [a, k]), sorted([(("a",), ("k",))])),
              ("Op * scalar", lambda: a * k, sorted([(("a",), ("k",))])),
              ("scalar * OpSum", lambda: it.call_function(f["OpSum.__rmul__"], [Sum([a, b]), k]), sorted([(("a",), ("k",)), (("b",), ("k",))])),
-             ("OpSum * scalar", lambda: Sum([a, b]) * k, sorted([(("a",), ("k",)), (("b",), ("k",))]))]
+             ("OpSum * scalar", lambda: Sum([a, b]) * k, sorted([(("a",), ("k",)), (("b",), ("k",))])),
+             ("Op + Op", lambda: a + b, sorted([(("a",), ()), (("b",), ())])),
+             ("Op + list", lambda: a + [b, c], sorted([(("a",), ()), (("b",), ()), (("c",), ())])),
+             ("0 + Op (sum() start value)", lambda: it.call_function(f["Op.__radd__"], [a, 0]), sorted([(("a",), ())])),
+             ("Op - Op", lambda: a - b, sorted([(("a",), ()), (("b",), ("-1",))])),
+             ("-Op", lambda: -a, sorted([(("a",), ("-1",))])),
+             ("OpSum + Op", lambda: Sum([a, b]) + c, sorted([(("a",), ()), (("b",), ()), (("c",), ())])),
+             ("OpSum + OpSum", lambda: Sum([a, b]) + Sum([c, d]), sorted([(("a",), ()), (("b",), ()), (("c",), ()), (("d",), ())])),
+             ("OpSum += Op", lambda: Sum([a, b]).__iadd__(c), sorted([(("a",), ()), (("b",), ()), (("c",), ())])),
+             ("OpSum += list", lambda: Sum([a, b]).__iadd__([c, d]), sorted([(("a",), ()), (("b",), ()), (("c",), ()), (("d",), ())])),
+             ("-OpSum", lambda: -Sum([a, b]), sorted([(("a",), ("-1",)), (("b",), ("-1",))])),
+             ("OpSum - Op", lambda: Sum([a, b]) - c, sorted([(("a",), ()), (("b",), ()), (("c",), ("-1",))])),
+             ("OpSum - OpSum", lambda: Sum([a, b]) - Sum([c, d]), sorted([(("a",), ()), (("b",), ()), (("c",), ("-1",)), (("d",), ("-1",))])),
+             ("OpSum / scalar", lambda: Sum([a, b]) / k, sorted([(("a",), ("1/k",)), (("b",), ("1/k",))]))]
     for name, run_, want in cases:
         try:
             got = words(run_())
@@ -348,8 +421,8 @@ def product_order_rule(chk, src):
             got, err = None, f"{type(e).__name__}: {e}"
         chk.ob("operand-order", name, got == want, f["Op.__mul__"].where, err or [".".join(w) + ("" if not fc else "*" + "*".join(fc)) for w, fc in got],
                [".".join(w) + ("" if not fc else "*" + "*".join(fc)) for w, fc in want], line=f["Op.__mul__"].node.lineno,
-               detail=f"{name}: every term of the product must be (left operand's term)(right operand's term) in this order; a reversed pair is a different operator whenever the two "
-                      "factors act on a common degree of freedom and do not commute")
+               detail=f"{name}: the result must contain every term of the mathematical expression exactly once, with operands of a product in the written order (a reversed pair is a "
+                      "different operator when the factors share a degree of freedom and do not commute) and with the written sign / scalar factor")
 
 
 def run(chk):
@@ -369,7 +442,7 @@ def run(chk):
     chk.rule("array-truth", "a quantum-number ndarray compared with ==/!=/< (or used bare) in a boolean context is reduced by np.all/np.any", 2)
     chk.rule("qn-carry", "Op(...) whose symbol derives from an existing Op's symbol/split_symbol passes an explicit qn", 9)
     chk.rule("product-order", "the four aggregations of Op.product iterate the same list in the same direction, and Op(...) receives them in (symbol, dof, factor, qn) positions", 2)
-    chk.rule("operand-order", "abstract run of Op / OpSum / list multiplication: operands keep their order in every term", 8)
+    chk.rule("operand-order", "abstract run of Op / OpSum / list arithmetic (*, +, -, unary -, +=, /): every term present once, operands in order, signs and scalar factors as written", 20)
     product_order_rule(chk, src)
     chk.rule("factor-algebra", "factor of -a is -f(a); of a*s is f(a)*s; of prod is the product; of merged terms is the sum; a/s is a*(1/s)", 5)
 
